@@ -75,6 +75,10 @@ def check(ctx, cv, sel, case, tag):
     K = len(sel)
     n = len(cv)
     sv, chv, chains = reference(cv, sel)
+    if case.get('narrow'):
+        # the same index vectors stored in the narrowest integer type that holds their labels (here: exactly filled)
+        sv, chv = sv.astype(case['narrow']), chv.astype(case['narrow'])
+        ctx.count('structures_with_exactly_filled_narrow_index_types')
     ctx.case(digest(cv, sel), bool(np.any(sel)))
     ctx.count('structures:' + tag)
     V = ctx.violation
@@ -240,6 +244,32 @@ def spot_check_huge(ctx, rng):
             return
 
 
+def thread_cases(seed):
+    """Look-ups and projections on equally long recordings (different cycle layouts) from different threads at the same time."""
+    from emd import _cycles_support as CS
+    r = np.random.default_rng(seed)
+    n = int(gens.pick(r, [4000, 60000]))
+    calls = []
+    for k in range(4):
+        lens = r.integers(4, 40, n // 4)
+        cv = np.repeat(np.arange(len(lens)), lens)[:n]
+        cv = np.r_[cv, np.full(n - len(cv), -1)].astype(int)
+        K = int(cv.max()) + 1
+        picks = [int(v) for v in r.integers(0, K, 40)]
+        vals = r.standard_normal(K)
+        if k % 2:
+            calls.append((lambda c, p: (lambda: np.concatenate([np.asarray(CS.map_cycle_to_samples(c, i)).reshape(-1) for i in p])))(cv, picks))
+        else:
+            calls.append((lambda c, v: (lambda: np.asarray(CS.project_cycles_to_samples(v, c), dtype=float)))(cv, vals))
+    return calls, {'seed': int(seed), 'n': n}
+
+
+def thread_check(ctx, seed):
+    from ..monitors import thread_probe
+    calls, tcase = thread_cases(seed)
+    return thread_probe(ctx, 'map_cycle_to_samples / project_cycles_to_samples (%d samples)' % tcase['n'], calls, 3 if tcase['n'] > 10000 else 10, tcase, interval=1e-6)
+
+
 def run_shard(ctx):
     rng = ctx.rng
     if ctx.shard % 8 == 0:
@@ -251,6 +281,28 @@ def run_shard(ctx):
         sel = rng.random(K) < .5
         ctx.count('structures_with_many_chains')
         check(ctx, cv, sel, {'kind': 'maps', 'cycle_vect': cv, 'selection': sel}, 'random')
+    if ctx.shard % 4 == 2:
+        # index vectors in a narrow integer type whose range is exactly used up: 128 labels in int8
+        cv = gens.label_vector(rng, ncycles=128, gaps=True).astype(np.int8)
+        sel = rng.random(128) < .6
+        check(ctx, cv, sel, {'kind': 'maps', 'cycle_vect': cv, 'selection': sel, 'cv_dtype': 'int8'}, 'random')
+        cv = gens.label_vector(rng, ncycles=256, gaps=True).astype(np.int16)
+        sel = np.arange(256) % 2 == int(rng.integers(2))           # 128 selected cycles, each a chain of its own
+        check(ctx, cv, sel, {'kind': 'maps', 'cycle_vect': cv, 'selection': sel, 'narrow': 'int8', 'cv_dtype': 'int16'}, 'random')
+    if ctx.shard % 8 == 4:
+        # ... and 32768 labels in int16 (projection only: the full check is quadratic)
+        from emd import _cycles_support as CS
+        cv = np.repeat(np.arange(32768), 2).astype(np.int16)
+        vals = np.arange(32768.) * 1.5 + 7
+        got = np.asarray(CS.project_cycles_to_samples(vals, cv), dtype=float).reshape(-1)
+        ctx.case(digest('int16-full'), True)
+        ctx.count('structures_with_exactly_filled_narrow_index_types')
+        if got.shape != (65536,) or not np.array_equal(got, vals[np.repeat(np.arange(32768), 2)]):
+            bad = np.where(got != vals[np.repeat(np.arange(32768), 2)])[0] if got.shape == (65536,) else []
+            ctx.violation('project_cycles_to_samples:int16-full', 'per-cycle values of 32768 cycles labelled in int16 are not placed on the samples of each cycle '
+                          '(%d samples wrong, first %s)' % (len(bad), bad[:3].tolist() if len(bad) else got.shape), {'kind': 'int16-full'})
+    if ctx.shard % 4 == 3:
+        thread_check(ctx, int(rng.integers(1 << 30)))
     n = NRANDOM[ctx.tier] // ctx.nshards
     for i in range(n):
         if ctx.out_of_time():
@@ -316,4 +368,17 @@ def replay(ctx, case):
     if case.get('kind') == 'huge':
         spot_check_huge(ctx, np.random.default_rng(0))
         return
-    check(ctx, np.asarray(case['cycle_vect'], int), np.asarray(case['selection'], bool), case, 'replay')
+    if case.get('kind') == 'threads':
+        for _ in range(5):
+            if not thread_check(ctx, case['seed']):
+                break
+        return
+    if case.get('kind') == 'int16-full':
+        from emd import _cycles_support as CS
+        cv = np.repeat(np.arange(32768), 2).astype(np.int16)
+        vals = np.arange(32768.) * 1.5 + 7
+        got = np.asarray(CS.project_cycles_to_samples(vals, cv), dtype=float).reshape(-1)
+        if got.shape != (65536,) or not np.array_equal(got, vals[np.repeat(np.arange(32768), 2)]):
+            ctx.violation('project_cycles_to_samples:int16-full', 'replayed', case)
+        return
+    check(ctx, np.asarray(case['cycle_vect']).astype(case.get('cv_dtype', 'int64')), np.asarray(case['selection'], bool), case, 'replay')
